@@ -134,10 +134,13 @@ def need_blank(left, right):
     rw = _HEAD.match(right).group(0)
     if lw in _KWSET and not lw.endswith("$"):
         return False  # keyword followed by anything
-    l_is_number = lw.replace(".", "").isdigit() and not _re.search(r"&\s*H\s*[0-9A-F]*$", left)  # hex digits would swallow A-F of a keyword
+    l_is_hex = bool(_re.search(r"&\s*H\s*[0-9A-F]*$", left))
+    l_is_number = lw.replace(".", "").isdigit() and not l_is_hex
     r_is_keyword = rw in _KWSET
     if l_is_number and r_is_keyword and (not rw.startswith("E") or rw == "ELSE"):
         return False
+    if l_is_hex and r_is_keyword and rw[0] not in "ABCDEF":
+        return False  # &HFFTHEN, &H0TO&HF: only a keyword that starts with a hex digit (AND, ELSE ...) would be swallowed by the literal
     return True
 
 
@@ -318,9 +321,18 @@ class Renderer:
     def stmts(self, lst):
         out = ""
         for i, s in enumerate(lst):
+            if s[0] == "empty":
+                # an empty statement: nothing between two colons, after the last colon of a line, or between a colon and ELSE
+                if i:
+                    out = self.j(out, ":") if out else out + ":"
+                continue
             t = self.stmt(s)
             if i == 0:
                 out = t
+                continue
+            if lst[i - 1][0] == "empty":
+                out = (self.j(out, ":") if out else ":")
+                out = self.j(out, t)
                 continue
             prev = lst[i - 1]
             if s[0] == "rem" and len(s) > 3 and s[3] == "nocolon" and s[2] == "'" and prev[0] != "data":
